@@ -1,6 +1,6 @@
 (** Property C12 — the theorems the check counts as obligations.  Nothing but
     statements closed by [exact] and [Print Assumptions]. *)
-From HS Require Import Base.Prelude C12.Model C12.PaxosNode C12.PaxosSys C12.LockModel C12.Lock C12.MultiModel C12.Multi.
+From HS Require Import Base.Prelude C12.Model C12.PaxosNode C12.PaxosSys C12.LockModel C12.Lock C12.MultiModel C12.Multi C12.ElectionModel C12.Election.
 From Coq Require Import Sorted.
 Local Open Scope Z_scope.
 
@@ -118,3 +118,15 @@ Theorem c12_multipaxos_own_tick_demotes : forall c s bn bnode commit,
   misl (fst (mstep c s (MHeartbeat bn bnode commit true))) = false.
 Proof. exact multipaxos_own_tick_demotes. Qed.
 Print Assumptions c12_multipaxos_own_tick_demotes.
+
+(** LEADER ELECTION (Bully, Ring, Randomized), all nodes configured with the
+    same member map: under any delays, reordering, loss, timeout timing and
+    random draws, any two nodes that ever report a leader — at any two moments
+    of the run, for the same term or not — report the same one. *)
+Theorem c12_election_one_leader : forall members mx, In mx members -> (forall m, In m members -> m <= mx) ->
+  forall strat tmo hb sch ext i j a b,
+  Forall (act_ok members) (sch ++ ext) ->
+  eleader (enodes (esys_run (cf members strat tmo hb) sch) i) = Some a ->
+  eleader (enodes (esys_run (cf members strat tmo hb) (sch ++ ext)) j) = Some b -> a = b.
+Proof. exact one_leader. Qed.
+Print Assumptions c12_election_one_leader.
